@@ -86,7 +86,7 @@ func (s *scte35) parseTable(data []byte) error {
 		return gots.ErrInvalidSCTE35Length
 	}
 	// read over the pointer field
-	buf.Next(int(psi.PointerField(data) + 1))
+	buf.Next(int(psi.PointerField(data)) + 1)
 	// read in the TableHeader
 	var err error
 	s.tableHeader, err = psi.TableHeaderFromBytes(buf.Next(3))
@@ -178,7 +178,7 @@ func (s *scte35) parseTable(data []byte) error {
 	// Check CRC?
 	// remove the pointer field and associated data off the top so we only get the
 	// table data
-	s.data = data[psi.PointerField(data)+1:]
+	s.data = data[int(psi.PointerField(data))+1:]
 	return nil
 }
 
